@@ -134,7 +134,18 @@ func (p *warcfieldsParser) Parse(r *bufio.Reader, validation *Validation, pos *p
 				if l == nil {
 					return nil, err
 				}
-				validation.addError(err)
+				if err == errEndOfHeaders {
+					err = newSyntaxError("missing newline", pos)
+				} else if _, ok := err.(*SyntaxError); !ok {
+					return nil, err
+				}
+				switch p.Options.errSyntax {
+				case ErrIgnore:
+				case ErrWarn:
+					validation.addError(err)
+				case ErrFail:
+					return nil, err
+				}
 			}
 			line = append(line, ' ')
 			line = append(line, l...)
